@@ -733,7 +733,7 @@ def run(ck: common.Check):
     ck.extra["corpus_cases"] = len(cases)
     cases += exhaustive_cases(ck.rng, thorough)
     cases += vlen_string_cases(ck.rng, thorough)
-    nrand, ncoll = (8000, 300) if thorough else (420, 36)
+    nrand, ncoll = (8000, 300) if thorough else (360, 36)
     for _ in range(nrand):
         cases.append(random_case(ck.rng))
     for _ in range(ncoll):
@@ -750,7 +750,7 @@ def run(ck: common.Check):
             c["csv_comparable"] = csv_comparable(c)
             ncsv += 1
 
-    seqs = [sequence_case(ck.rng) for _ in range(400 if thorough else 60)]
+    seqs = [sequence_case(ck.rng) for _ in range(400 if thorough else 48)]
     all_obs = common.pmap(observe, cases + seqs, chunksize=8)
     obs_all, seq_obs = all_obs[:len(cases)], all_obs[len(cases):]
     drv = ck.driver()
